@@ -1,6 +1,6 @@
 ;; C20 correspondence driver: (chibi regexp) on batches of (SRE, subject strings).
 ;; usage: chibi-scheme c20_driver.scm <cases-file>
-;; cases file: a sequence of data  (id sre str ...)
+;; cases file: a sequence of data  (id sre str ...)        sre may be (pcre "text"): compiled by pcre->regexp
 ;; output, one line per case:   id R <res> <res> ...      one <res> per subject string
 ;;        <res> = M<spans>;S<spans>   spans = #f -> "-"   else  i-j,x,i-j,...   (x = submatch unset)
 ;;        a Scheme error while matching one string gives  M!<msg>  /  S!<msg>
@@ -11,13 +11,20 @@
 ;; also:  (id range sre (str start end) ...) -> like R, calling (regexp-matches rx str start end) / (regexp-search rx str start end)
 ;; also:  (id fold sre str ...) -> id G F<spans kons saw>;E<regexp-extract>;S<regexp-split>;P<regexp-partition>;R<regexp-replace with "-">;A<regexp-replace-all with "-">
 ;; also:  (id graph sre (cp ...)) -> id Y <start> <num-save-indexes> <non-greedy-indexes or _> | id:kind:match:rule:next1:next2 ...
-;;          the compiled state graph reached from rx-start-state (raw state-ids); kind A accept, E epsilon, G<anchor>, C<0/1 per cp>
+;;          the compiled state graph reached from rx-start-state (raw state-ids); kind A accept, E epsilon, G<anchor>,
+;;          C<0/1 per cp>/<char-set-size>[.<hex member>...  when the set has at most 300 members]
 ;; also:  (id trace search? sre str) -> id Z i;accept;id=vec id=vec ... | ... # result    searchers1 and the accept at every
 ;;          iteration of regexp-advance! (seen through a wrapper around the internal posse-for-each) and when it returns
 ;; also:  (id chars cp ...)  ->  id K cp:fold:up:down:word ...   (char-level functions, hex)
 (import (scheme base) (scheme write) (scheme read) (scheme char) (scheme file)
         (scheme process-context) (scheme eval) (only (meta) find-module module-env)
-        (chibi regexp) (chibi char-set) (chibi char-set full) (chibi string))
+        (chibi regexp) (chibi regexp pcre) (chibi char-set) (chibi char-set full) (chibi string))
+
+;; (pcre "text") in the place of an SRE: the PCRE string front end (lib/chibi/regexp/pcre.scm)
+(define (compile-rx x)
+  (if (and (pair? x) (eq? (car x) 'pcre) (pair? (cdr x)) (string? (cadr x)))
+      (pcre->regexp (cadr x))
+      (regexp x)))
 
 ;; non-exported procedures of (chibi regexp), for the function-level stages; #f when the name is gone
 (define regexp-env (module-env (find-module '(chibi regexp))))
@@ -77,7 +84,18 @@
                    (else
                     (string-append
                      "C" (list->string
-                          (map (lambda (cp) (if (i-state-matches? st #f #f (integer->char cp) #f #f #f) #\1 #\0)) cps))))))
+                          (map (lambda (cp) (if (i-state-matches? st #f #f (integer->char cp) #f #f #f) #\1 #\0)) cps))
+                     ;; the whole content of the set as the iset iteration sees it (char-set-size, and the members when there are few)
+                     (guard (e (#t "/!"))
+                       (let* ((cs (if (char? c) (char-set c) c))
+                              (n (char-set-size cs)))
+                         (string-append
+                          "/" (number->string n)
+                          (if (<= n 300)
+                              (apply string-append
+                                     (map (lambda (ch) (string-append "." (number->string (char->integer ch) 16)))
+                                          (char-set->list cs)))
+                              ""))))))))
                 ":" (let ((m (i-state-match st))) (if (pair? m) "L" (num-or-x m)))
                 ":" (case (i-state-match-rule st)
                       ((#f) "n") ((left) "l") ((right) "r") ((non-greedy-left) "g") (else "?"))
@@ -392,7 +410,7 @@
              (write-string (guard (e (#t (string-append "!" (msg-of e)))) (str-list (list (regexp-replace-all rx s "-"))))))
            (cdr (cddr c)))))))
      (else
-      (let ((rx (guard (e (#t (cons 'err (msg-of e)))) (regexp (cadr c)))))
+      (let ((rx (guard (e (#t (cons 'err (msg-of e)))) (compile-rx (cadr c)))))
         (cond
          ((pair? rx)
           (write-string " ERR ") (write-string (cdr rx)))
